@@ -272,58 +272,51 @@ Check C06_frame_path_noauth : forall dbg u, wf_b u = true -> noauth_slash_path u
      /\ exists P, path u' = Some P /\ new_path_ok P).
 Print Assumptions C06_frame_path_noauth.
 
-(* 10. set_path on an OPAQUE path.  The statement as it was first written down (any argument without
-   '?' and '#', which are the class F-C02-3) is kept below and is FALSE: only a '/' in the very first
-   position of the argument is escaped ("%2F"), while TAB / LF / CR are dropped by the input iterator
-   afterwards, so set_path("<TAB>//x") on "a:b" gives "a://x" with the offsets of an authority-less
-   record (the class of F-C02-8 reached from an opaque path). *)
+(* 10. set_path on an OPAQUE path, for every argument (a &str) without '?' and '#' (with them: the class
+   F-C02-3, witness in C06_path_noauth_refuted): invariant and frame.  The statement was FALSE of the
+   pinned code (finding F-C06-6: only a '/' in the very first position of the argument was escaped while
+   TAB / LF / CR were dropped afterwards, so set_path("<TAB>//x") on "a:b" gave "a://x"); it is proved
+   for the repaired code (0cfc9d8: the '/' test is made on the TAB / LF / CR-free input), which
+   Model/Setters.v follows. *)
 Definition C06_frame_path_opaque_statement : Prop :=
   forall dbg u p u', wfh u -> is_opaque_b u = true -> usv_list p ->
     forallb no_qh p = true -> set_path dbg u p = Some u' ->
     wfh u' /\ same_front dbg u u' /\ query dbg u' = query dbg u /\ fragment dbg u' = fragment dbg u.
 
-Theorem C06_frame_path_opaque_refuted : ~ C06_frame_path_opaque_statement.
+Theorem C06_frame_path_opaque : C06_frame_path_opaque_statement.
 Proof.
-  intros S. destruct set_path_opaque_tab_refuted as (W & O & Q & u' & E & _ & F).
-  assert (wfh sp_w2) as Hw by (split; [exact W | intros Hh; vm_compute in Hh; discriminate]).
-  assert (usv_list [9; 47; 47; 120]) as Hu by (repeat constructor; unfold is_usv; lia).
-  destruct (S true sp_w2 [9; 47; 47; 120] u' Hw O Hu Q E) as ((W' & _) & _). congruence.
+  intros dbg u p u' [W _] O Hu Q E.
+  destruct (set_path_opaque_ok dbg u p u' W O Hu Q E) as (A & B & C & D & F & _).
+  split; [split; assumption|]. split; [exact C|]. split; [exact D | exact F].
 Qed.
-Check C06_frame_path_opaque_refuted : ~ C06_frame_path_opaque_statement.
-Print Assumptions C06_frame_path_opaque_refuted.
-
-(* the exact form: for every argument without '?' / '#' (no condition on the code points) the result
-   satisfies the invariant and the frame iff its path does not start with "//"; the new path has no
-   '?' / '#' *)
-Theorem C06_frame_path_opaque : forall dbg u p u', wfh u -> is_opaque_b u = true ->
-  forallb no_qh p = true -> set_path dbg u p = Some u' ->
-  (path_starts_with_2slash u' = false ->
-     wfh u' /\ same_front dbg u u' /\ query dbg u' = query dbg u /\ fragment dbg u' = fragment dbg u
-     /\ exists P, path u' = Some P /\ forallb no_qh P = true)
-  /\ (path_starts_with_2slash u' = true -> wf_b u' = false).
-Proof.
-  intros dbg u p u' [W _] O Q E. destruct (set_path_opaque_ok dbg u p u' W O Q E) as [R1 R2].
-  split; [|exact R2]. intros H. destruct (R1 H) as (A & B & C & D & F & G).
-  split; [split; assumption|]. split; [exact C|]. split; [exact D|]. split; [exact F | exact G].
-Qed.
-Check C06_frame_path_opaque : forall dbg u p u', wfh u -> is_opaque_b u = true ->
-  forallb no_qh p = true -> set_path dbg u p = Some u' ->
-  (path_starts_with_2slash u' = false ->
-     wfh u' /\ same_front dbg u u' /\ query dbg u' = query dbg u /\ fragment dbg u' = fragment dbg u
-     /\ exists P, path u' = Some P /\ forallb no_qh P = true)
-  /\ (path_starts_with_2slash u' = true -> wf_b u' = false).
+Check C06_frame_path_opaque : forall dbg u p u', wfh u -> is_opaque_b u = true -> usv_list p ->
+    forallb no_qh p = true -> set_path dbg u p = Some u' ->
+    wfh u' /\ same_front dbg u u' /\ query dbg u' = query dbg u /\ fragment dbg u' = fragment dbg u.
 Print Assumptions C06_frame_path_opaque.
 
-(* the hypotheses are met non-trivially: "a:b" with set_path("x /y") gives "a:x /y" (opaque, well-formed);
-   with set_path("/y") the leading '/' is escaped: "a:%2Fy"; with set_path(TAB "/y") it is not: "a:/y" is
-   well-formed (the frame holds) but no longer has an opaque path *)
+(* in addition: the path stays opaque (the URL stays cannot-be-a-base) and the new path has no '?' / '#' *)
+Theorem C06_get_path_opaque : forall dbg u p u', wfh u -> is_opaque_b u = true -> usv_list p ->
+  forallb no_qh p = true -> set_path dbg u p = Some u' ->
+  is_opaque_b u' = true /\ exists P, path u' = Some P /\ forallb no_qh P = true.
+Proof.
+  intros dbg u p u' [W _] O Hu Q E.
+  destruct (set_path_opaque_ok dbg u p u' W O Hu Q E) as (_ & _ & _ & _ & _ & G & H). split; assumption.
+Qed.
+Check C06_get_path_opaque : forall dbg u p u', wfh u -> is_opaque_b u = true -> usv_list p ->
+  forallb no_qh p = true -> set_path dbg u p = Some u' ->
+  is_opaque_b u' = true /\ exists P, path u' = Some P /\ forallb no_qh P = true.
+Print Assumptions C06_get_path_opaque.
+
+(* the hypotheses are met non-trivially: "a:b" with set_path("x /y") gives "a:x /y"; with set_path("/y")
+   the leading '/' is escaped: "a:%2Fy"; and so it is behind a TAB: set_path(TAB "//x") gives "a:%2F/x"
+   (the former witness of F-C06-6) *)
 Example C06_frame_path_opaque_inhabited :
   wfh sp_w2 /\ is_opaque_b sp_w2 = true
   /\ (exists u', set_path true sp_w2 [120; 32; 47; 121] = Some u' /\ ser u' = [97; 58; 120; 32; 47; 121]
-        /\ path_starts_with_2slash u' = false /\ wf_b u' = true)
+        /\ wf_b u' = true)
   /\ (exists u', set_path true sp_w2 [47; 121] = Some u' /\ ser u' = [97; 58; 37; 50; 70; 121] /\ is_opaque_b u' = true)
-  /\ (exists u', set_path true sp_w2 [9; 47; 121] = Some u' /\ ser u' = [97; 58; 47; 121]
-        /\ wf_b u' = true /\ is_opaque_b u' = false).
+  /\ (exists u', set_path true sp_w2 [9; 47; 47; 120] = Some u' /\ ser u' = [97; 58; 37; 50; 70; 47; 120]
+        /\ wf_b u' = true /\ is_opaque_b u' = true).
 Proof.
   split; [split; [vm_compute; reflexivity | intros Hh; vm_compute in Hh; discriminate]|].
   split; [vm_compute; reflexivity|].
